@@ -175,15 +175,18 @@ def run(ctx: Ctx) -> None:
     ctx.bounds = {"classes": len(classes), "sizes": N_QUICK if ctx.quick else N_THOROUGH, "path_length": 3}
     step = 24
     ctx.pmap(_worker, [(ctx.tier, lo, min(lo + step, len(classes))) for lo in range(0, len(classes), step)])
-    try:
-        from mc.checks import c09g
+    from mc.checks import c09g
 
-        c09g.run_g(ctx, "c09")
-    except ImportError:
-        pass
+    c09g.run_g(ctx, "c09")
+    c09g.run_one_factor(ctx)
 
 
 def replay(acc: Acc, payload: dict) -> None:
+    if payload.get("domain") == "G1":
+        from mc.checks import c09g
+
+        c09g.check_one_factor(acc, payload["grammar"])
+        return
     if payload.get("domain") == "G":
         from mc.checks import c09g
 
